@@ -123,7 +123,7 @@ def extract_function(cname, ptext, body, cxx_name):
         if m:
             row["result"] = (row["result"] + "|" if row["result"] else "") + "Return:" + m.group(1)
             continue
-        m = re.match(r"^(?:const )?[\w:<> ]+?[\*&]? ?(\w+) = (\w+)\.c_str\(\)$", st)
+        m = re.match(r"^(?:const )?[\w:<> ]+?[\*&]? ?(\w+) = (\w+)(?:\.|->)c_str\(\)$", st)
         if m:
             row["result"] = (row["result"] + "|" if row["result"] else "") + "CStr:" + m.group(2)
             continue
@@ -173,12 +173,30 @@ def coq_s(x):
     return '"' + x.replace('"', '""') + '"'
 
 
+def result_conv(r):
+    res = r.get("result") or ""
+    parts = res.split("|") if res else []
+    if not parts:
+        return "RNone"
+    if any(p.startswith("Return:SHadow") for p in parts):
+        return "RShadow"
+    if any(p.startswith("CStr:") for p in parts) and parts[-1].startswith("Return:"):
+        return "RCStr"
+    if any(p.startswith("CastBack:") for p in parts) and parts[-1].startswith("Return:"):
+        return "RCastBack"
+    if parts[-1].startswith("Return:") and ("Local:" + parts[-1][7:]) in parts:
+        return "RDirect"
+    if all(p == "ResultGlue" or p.startswith("Local:") for p in parts):
+        return "RGlue"
+    return "RUnknown"
+
+
 def emit_coq(rows, path):
     """rows (with a 'lib' label) -> GenFlows.v ; fail closed: a row that cannot be written becomes w_unknown = 99"""
     items = []
     for r in rows:
         if r.get("missing"):
-            items.append('{| w_name := %s; w_kind := "missing"; w_call := ""; w_this := ""; w_params := []; w_args := []; w_copyouts := []; w_unknown := 99 |}'
+            items.append('{| w_name := %s; w_kind := "missing"; w_call := ""; w_this := ""; w_params := []; w_args := []; w_copyouts := []; w_unknown := 99; w_rkind := {| k_group := "?"; k_ptrs := ""; k_intent := "" |}; w_result := RUnknown; w_buf := false |}'
                          % coq_s(r.get("lib", "") + ":" + (r.get("cname") or "?")))
             continue
         try:
@@ -190,11 +208,14 @@ def emit_coq(rows, path):
                 ps.append("(%s, {| k_group := %s; k_ptrs := %s; k_intent := %s |})" % (coq_s(n), coq_s(g), coq_s(p), coq_s(i)))
             args = ["(%s, %s)" % (CONV.get(c, "UnknownConv"), coq_s(root)) for (c, root) in (r["args"] if r["args"] is not None else [("?", "?")])]
             unk = len(r["unknown"]) + (1 if r["args"] is None else 0)
-            items.append("{| w_name := %s; w_kind := %s; w_call := %s; w_this := %s; w_params := [%s]; w_args := [%s]; w_copyouts := [%s]; w_unknown := %d |}" % (
+            rg, rp, ri = ((r.get("result_kind") or "?||").split("|") + ["", "", ""])[:3]
+            items.append("{| w_name := %s; w_kind := %s; w_call := %s; w_this := %s; w_params := [%s]; w_args := [%s]; w_copyouts := [%s]; w_unknown := %d; "
+                         "w_rkind := {| k_group := %s; k_ptrs := %s; k_intent := %s |}; w_result := %s; w_buf := %s |}" % (
                 coq_s(r.get("lib", "") + ":" + r["cname"]), coq_s(r["kind"]), coq_s(r["call"]), coq_s(r["this"]), "; ".join(ps), "; ".join(args),
-                "; ".join(coq_s(c) for c, _ in r["copyouts"]), unk))
+                "; ".join(coq_s(c) for c, _ in r["copyouts"]), unk, coq_s(rg), coq_s(rp), coq_s(ri), result_conv(r),
+                "true" if r.get("generated") == "arg_to_buffer" else "false"))
         except Exception:
-            items.append('{| w_name := "unwritable"; w_kind := "?"; w_call := ""; w_this := ""; w_params := []; w_args := []; w_copyouts := []; w_unknown := 99 |}')
+            items.append('{| w_name := "unwritable"; w_kind := "?"; w_call := ""; w_this := ""; w_params := []; w_args := []; w_copyouts := []; w_unknown := 99; w_rkind := {| k_group := "?"; k_ptrs := ""; k_intent := "" |}; w_result := RUnknown; w_buf := false |}')
     with open(path, "w") as f:
         f.write("(* generated on this run: argument flow of every plain C wrapper found in the generated sources *)\n")
         f.write("From Coq Require Import List String.\nFrom Shroud Require Import Model.CallEq.\nImport ListNotations.\nOpen Scope string_scope.\n")
